@@ -728,3 +728,26 @@ v("c14-field-map-bare-read", "C14", "SHARED-MAP-READS", OF,
   "        fields2 = field_map2.get(response_name)\n        if fields2:\n", "        fields2 = field_map2[response_name] if field_map2 else None\n        if fields2:\n")
 v("c14-field-map-read-after-membership", "C14", "SHARED-MAP-READS", OF,
   "        fields2 = field_map2.get(response_name)\n        if fields2:\n", "        if response_name in field_map2:\n            fields2 = field_map2[response_name]\n        else:\n            fields2 = None\n        if fields2:\n", expect="silent")
+
+# -- round 5: C15 ------------------------------------------------------------------------------------------
+v("c15-unprovided-variable-decided-by-default-only", "C15", "FIELD-REQUIREDNESS", U + "validate_input_value.py",
+  "                    elif value is Undefined and not is_required_input_field(field):\n", "                    elif value is Undefined and field.default is not None:\n")
+v("c15-enum-literal-from-internal-value", "C15", "ENUM-DIRECTION", T + "definition.py",
+  "        if isinstance(value, str) and self.values.get(value):\n            return EnumValueNode(value=value)\n        return None\n",
+  "        name = self._value_lookup.get(value) if isinstance(value, str) else None\n        if name is None and isinstance(value, str) and self.values.get(value):\n            name = value\n        return None if name is None else EnumValueNode(value=name)\n")
+
+# -- round 5: C16 ------------------------------------------------------------------------------------------
+v("c16-id-string-canonicalised", "C16", "STR-VERBATIM", T + "scalars.py",
+  "def coerce_id(input_value: Any) -> str:\n    if isinstance(input_value, str):\n        return input_value\n",
+  "def coerce_id(input_value: Any) -> str:\n    if isinstance(input_value, str):\n        return input_value.strip()\n")
+v("c16-string-input-refuses-surrogates", "C16", "STR-VERBATIM", T + "scalars.py",
+  "            \"String cannot represent a non string value: \" + inspect(input_value)\n        )\n    return input_value\n",
+  "            \"String cannot represent a non string value: \" + inspect(input_value)\n        )\n    if not input_value.isprintable():\n        raise GraphQLError(\"String cannot represent value: \" + inspect(input_value))\n    return input_value\n")
+v("c16-id-str-arm-guard-clause", "C16", "STR-VERBATIM", T + "scalars.py",
+  "def coerce_id(input_value: Any) -> str:\n    if isinstance(input_value, str):\n        return input_value\n    if isinstance(input_value, (int, float)) and not isinstance(input_value, bool):\n        return coerce_id_from_number(input_value)\n    raise GraphQLError(\"ID cannot represent value: \" + inspect(input_value))\n",
+  "def coerce_id(input_value: Any) -> str:\n    is_text = isinstance(input_value, str)\n    if not is_text:\n        if isinstance(input_value, (int, float)) and not isinstance(input_value, bool):\n            return coerce_id_from_number(input_value)\n        raise GraphQLError(\"ID cannot represent value: \" + inspect(input_value))\n    return input_value\n",
+  expect="silent")
+
+# -- unfix variant of 7e103a9 ---------------------------------------------------------------------------------
+v("c01-unfix-natural-compare-int", "C01", "STR-TOTAL", "src/graphql/pyutils/natural_compare.py",
+  "        (*numeric_order(part), part) if is_digit else part\n", "        (int(part), part) if is_digit else part\n")
